@@ -1256,6 +1256,23 @@ func TestProp(t *testing.T) {
 	run.Enum("contexts", "every context template x syntax x variant x value x hook set; per case three runs: the operands written as literals (values), as calls of a native function (which operand is evaluated when), and in the custom syntax; oracle: same error-ness/rest/value/variables/generator state as the literals, handler log = reference call log with exactly the matched text, groups and payload, handler's reused value object untouched, \"\" as process text = the matched text; non-trivial = at least one handler call; distinct by source, syntax, variant",
 		func(s *rt.Section) { enumContexts(s, run) })
 
+	run.Enum("lookahead", fmt.Sprintf("%d fixed programs with an operand of a stream parser that matches L<digits> only when the next character is ! or ~ and hands that character back: handler called exactly once with the matched text, value 2*digits combined as written, the mark and what follows as rest text — whether or not text follows the operand; non-trivial = every case; distinct by source", len(lookaheadCases)),
+		func(s *rt.Section) {
+			s.Exhaustive = true
+			s.Bounds = fmt.Sprintf("%d fixed programs", len(lookaheadCases))
+			for i, c := range lookaheadCases {
+				if i%run.Env.NShards != run.Env.Shard {
+					continue
+				}
+				s.Eval()
+				s.NonTrivial(rt.Hash(c.Src))
+				s.Sample(rt.Hash(c.Src), c)
+				if s.Report(nil, checkLookahead(c, s)) {
+					return
+				}
+			}
+		})
+
 	run.Check("transparent", 7000, 64000,
 		"generated program (all constructs, seeded dice of the enabled families; 1/3 with a broken-off tail, 1/4 after a set-up program) on a plain VM and on a VM with: a logging stream parser, 1-4 of {regex over a foreign alphabet, regex that can only match in the middle of an operand, regex that matches some operands, a named syntax, a stream parser reading ahead by Read/Peek/Unread/ReadDigits/ReadExpr and declining by nil / Matched=false / Matched with nothing consumed, with or without ResetAttempt}, and a drawn subset of pass-through HookValueLoadPre/LoadPost/Store and identity detail rewriters. When no syntax matched at a consulted position (decided from the logged consultations): equal error-ness, Ret, Matched, RestInput, process text, variables, generator state, and no handler call. Non-trivial = nothing matched and the custom syntaxes were consulted at >= 3 distinct positions; distinct by source, seed, extension set",
 		propTransparent)
@@ -1282,7 +1299,15 @@ func TestReplay(t *testing.T) {
 		f, _ := checkActing(c, s)
 		return f
 	}
+	lookahead := func(b []byte, s *rt.Section) *rt.Failure {
+		var c LACase
+		if err := json.Unmarshal(b, &c); err != nil {
+			return s.NewFailure("replay", "replay:bad-case", nil, err.Error(), "")
+		}
+		return checkLookahead(c, s)
+	}
 	rt.Replay(t, "C17", map[string]rt.ReplayFunc{
+		"lookahead": lookahead,
 		"transparent": func(b []byte, s *rt.Section) *rt.Failure {
 			var c TCase
 			if err := json.Unmarshal(b, &c); err != nil {
